@@ -8,11 +8,14 @@ pub mod c03;
 pub mod c04;
 pub mod c05;
 pub mod c06;
+pub mod c07;
+pub mod c08;
 pub mod c09;
 pub mod c10;
 pub mod c11;
 pub mod c12;
 pub mod c13;
+pub mod c17;
 pub mod refcmp;
 
 pub fn spaces(prop: &str, tier: Tier) -> Vec<Box<dyn Space>> {
@@ -23,11 +26,14 @@ pub fn spaces(prop: &str, tier: Tier) -> Vec<Box<dyn Space>> {
         "C04" => c04::spaces(tier),
         "C05" => c05::spaces(tier),
         "C06" => c06::spaces(tier),
+        "C07" => c07::spaces(tier),
+        "C08" => c08::spaces(tier),
         "C09" => c09::spaces(tier),
         "C10" => c10::spaces(tier),
         "C11" => c11::spaces(tier),
         "C12" => c12::spaces(tier),
         "C13" => c13::spaces(tier),
+        "C17" => c17::spaces(tier),
         _ => Vec::new(),
     }
 }
@@ -40,11 +46,14 @@ pub fn meta(prop: &str, tier: Tier) -> PropMeta {
         "C04" => c04::meta(tier),
         "C05" => c05::meta(tier),
         "C06" => c06::meta(tier),
+        "C07" => c07::meta(tier),
+        "C08" => c08::meta(tier),
         "C09" => c09::meta(tier),
         "C10" => c10::meta(tier),
         "C11" => c11::meta(tier),
         "C12" => c12::meta(tier),
         "C13" => c13::meta(tier),
+        "C17" => c17::meta(tier),
         _ => PropMeta {
             id: "?",
             level: "exploration",
